@@ -75,7 +75,7 @@ def build_document(D: dict) -> dict:
             components["responses"] = shared_responses
         if shared_headers:
             components["headers"] = shared_headers
-        doc = {"openapi": "3.0.2", "info": {"title": "t", "version": "1"}, "paths": {"/r": {"get": op}}, "components": components}
+        doc = {"openapi": "3.1.0" if dialect == "3.1" else "3.0.2", "info": {"title": "t", "version": "1"}, "paths": {"/r": {"get": op}}, "components": components}
     return doc
 
 
@@ -162,7 +162,8 @@ def disagreements(exp: dict, obs: list[str]) -> list[tuple[str, str]]:
 
 
 _SCHEMA_CLASS = {"ObjId": "plain", "ObjName": "plain", "Str": "plain", "Arr": "plain", "NullInt": "nullable",
-                 "ObjNullProp": "nullable", "ObjWO": "writeOnly", "ObjWO2": "writeOnly-two", "-": "none"}
+                 "ObjNullProp": "nullable", "ObjWO": "writeOnly", "ObjWO2": "writeOnly-two", "-": "none",
+                 "ObjWOReq": "writeOnly-required", "ObjOnlyWO": "writeOnly-only", "StrPat": "pattern+length", "Node": "recursive"}
 
 
 def signature_parts(D: dict, resp: dict, feat: dict, kind: str, direction: str) -> tuple[str, list[str]]:
